@@ -51,17 +51,22 @@ class LState:
 class ScanDomain(Domain):
     """Tracks: has the index made progress on this path; which match variables are known None / known truthy."""
 
-    def __init__(self, idx: str, match_vars: set[str]):
+    def __init__(self, idx: str, match_vars: set[str], tuple_vars: dict | None = None):
         self.idx = idx
         self.match_vars = match_vars
+        self.tuple_vars = tuple_vars or {}       # result variable of a matching helper -> position of the match in it
 
     def is_state(self, x):
         return isinstance(x, LState)
 
     def _assign(self, state: LState, target: ast.AST, value: ast.AST | None, aug: ast.AST | None = None) -> LState:
         if isinstance(target, (ast.Tuple, ast.List)):
-            for e in target.elts:
+            src_var = value.id if isinstance(value, ast.Name) and value.id in self.tuple_vars else None
+            known = src_var is not None and state.fact(src_var) == 'match'
+            for i, e in enumerate(target.elts):
                 state = self._assign(state, e, None)
+                if known and isinstance(e, ast.Name) and e.id in self.match_vars and self.tuple_vars[src_var] == i:
+                    state = state.with_fact(e.id, 'match')
             return state
         if not isinstance(target, ast.Name):
             return state
@@ -130,9 +135,56 @@ class ScannerLoop:
     idx: str
     bound: str | None
     match_vars: set
-    match_calls: list          # (var, call node)
+    match_calls: list          # (var, call node, function node the call lives in)
     bad_paths: list            # textual descriptions
     test_ok: bool
+
+
+def helper_summary(helper: ast.FunctionDef, idx_pos: int):
+    """A method `h(self, text, index)` that returns None or (a tuple holding) a match object of REGEX.match(text, index)
+    that is known to be truthy where it is returned. Returns (position of the match in the tuple | None, match calls)."""
+    params = [a.arg for a in helper.args.args]
+    if params and params[0] in ('self', 'cls'):
+        params = params[1:]
+    if idx_pos >= len(params):
+        return None
+    hidx = params[idx_pos]
+    calls = []
+    for st in ast.walk(helper):
+        if isinstance(st, ast.Assign) and len(st.targets) == 1 and isinstance(st.targets[0], ast.Name) \
+                and isinstance(st.value, ast.Call) and isinstance(st.value.func, ast.Attribute) \
+                and st.value.func.attr == 'match' and len(st.value.args) >= 2 \
+                and isinstance(st.value.args[1], ast.Name) and st.value.args[1].id == hidx:
+            calls.append((st.targets[0].id, st.value))
+    if not calls or hidx in assigned_names(helper):
+        return None
+    mvars = {v for v, _ in calls}
+    shapes = set()
+    ok = [True]
+
+    class D(ScanDomain):
+        def on_return(self, state, node):
+            v = node.value
+            if v is None or (isinstance(v, ast.Constant) and v.value is None):
+                return state
+            if isinstance(v, ast.Name) and v.id in mvars:
+                shapes.add(None)
+                if state.fact(v.id) == 'none':
+                    return state
+                ok[0] = ok[0] and state.fact(v.id) == 'match'
+                return state
+            if isinstance(v, ast.Tuple):
+                ks = [i for i, e in enumerate(v.elts) if isinstance(e, ast.Name) and e.id in mvars]
+                if len(ks) == 1:
+                    shapes.add(ks[0])
+                    ok[0] = ok[0] and state.fact(v.elts[ks[0]].id) == 'match'
+                    return state
+            ok[0] = False
+            return state
+    Walker(D(hidx, mvars)).block(helper.body, {LState(False, frozenset())})
+    if not ok[0] or len(shapes) != 1:
+        return None
+    return shapes.pop(), calls
 
 
 def find_scanner_loops(mod, fn_qual: str, fn: ast.FunctionDef) -> list[ScannerLoop]:
@@ -154,12 +206,38 @@ def find_scanner_loops(mod, fn_qual: str, fn: ast.FunctionDef) -> list[ScannerLo
                     and st.value.func.attr == 'match' and len(st.value.args) >= 2 \
                     and isinstance(st.value.args[1], ast.Name) and st.value.args[1].id == idx:
                 calls.append((st.targets[0].id, st.value))
+        tuple_vars = {}
+        helper_calls = []
+        for st in ast.walk(node):
+            # token = self.helper(text, index): the helper returns None or a match / a tuple holding one
+            if isinstance(st, ast.Assign) and len(st.targets) == 1 and isinstance(st.targets[0], ast.Name) \
+                    and isinstance(st.value, ast.Call) and isinstance(st.value.func, ast.Attribute) \
+                    and isinstance(st.value.func.value, ast.Name) and st.value.func.value.id in ('self', 'cls'):
+                pos = [i for i, a in enumerate(st.value.args) if isinstance(a, ast.Name) and a.id == idx]
+                cls = fn_qual.split('.')[-2] if fn_qual.count('.') >= 2 else None
+                helper = mod.functions.get(f'{cls}.{st.value.func.attr}') if cls else None
+                if len(pos) == 1 and helper is not None:
+                    summ = helper_summary(helper, pos[0])
+                    if summ is not None:
+                        k, hcalls = summ
+                        helper_calls.append((st.targets[0].id, k, hcalls, helper))
+        for var, k, hcalls, helper in helper_calls:
+            calls.extend((var if k is None else f'{var}[{k}]', c, helper) for _, c in hcalls)
+            if k is not None:
+                tuple_vars[var] = k
         if not calls:
             continue
-        match_vars = {v for v, _ in calls}
+        calls = [c if len(c) == 3 else (c[0], c[1], fn) for c in calls]
+        match_vars = {v for v, _, _ in calls if '[' not in v} | {v for v, _, _, _ in helper_calls}
+        # names unpacked from a helper result at the position of the match
+        for st in ast.walk(node):
+            if isinstance(st, ast.Assign) and isinstance(st.targets[0], (ast.Tuple, ast.List)) and isinstance(st.value, ast.Name) \
+                    and st.value.id in tuple_vars and len(st.targets[0].elts) > tuple_vars[st.value.id] \
+                    and isinstance(st.targets[0].elts[tuple_vars[st.value.id]], ast.Name):
+                match_vars.add(st.targets[0].elts[tuple_vars[st.value.id]].id)
         bound_names = names_in(bound_expr)
         test_ok = not (bound_names & assigned_names(node)) and idx not in bound_names
-        dom = ScanDomain(idx, match_vars)
+        dom = ScanDomain(idx, match_vars, tuple_vars)
         w = Walker(dom)
         o = w.block(node.body, {LState(False, frozenset())})
         back = o.normal | o.cont
